@@ -76,9 +76,19 @@ func concJobs(th bool) []driver.Job {
 					out = append(out, driver.Job{Name: name, Run: func(c *driver.Ctx) {
 						c.Explore(driver.Scenario{
 							Name: name, Bases: []int{0, 1, 2}, Bounds: b,
-							Make: func() (func(), func(*vs.Result) *driver.Fail) { return concRun(c, d, pair, gs, name) },
+							Make: func() (func(), func(*vs.Result) *driver.Fail) { return concRun(c, d, pair, gs, name, false) },
 						})
 					}})
+					if cb.doc != "entries-unknown-fields" {
+						// the same through credentials.NewStore (plain-text fallback allowed): one store value, whatever it builds per call
+						dname := name + "/via-NewStore"
+						out = append(out, driver.Job{Name: dname, Run: func(c *driver.Ctx) {
+							c.Explore(driver.Scenario{
+								Name: dname, Bases: []int{0, 1, 2}, Bounds: b,
+								Make: func() (func(), func(*vs.Result) *driver.Fail) { return concRun(c, d, pair, gs, dname, true) },
+							})
+						}})
+					}
 				}
 			}
 		}
@@ -108,9 +118,15 @@ func permutations(n int) [][]int {
 	return out
 }
 
-func concRun(c *driver.Ctx, d *doc, pair [2]string, gs []op, name string) (func(), func(*vs.Result) *driver.Fail) {
+func concRun(c *driver.Ctx, d *doc, pair [2]string, gs []op, name string, viaNewStore bool) (func(), func(*vs.Result) *driver.Fail) {
 	dir, path := place(d)
-	st, err := credentials.NewFileStore(path)
+	var st credentials.Store
+	var err error
+	if viaNewStore {
+		st, err = credentials.NewStore(path, credentials.StoreOptions{AllowPlaintextPut: true})
+	} else {
+		st, err = credentials.NewFileStore(path)
+	}
 	m0 := newModel(d)
 	s0 := statOf(path)
 	results := make([]concRes, len(gs))
